@@ -565,6 +565,11 @@ func (fc *FnCtx) call(x *ssa.Call) Val {
 		}
 	}
 	ci := fc.w.calleeOf(common)
+	if ci.fn != nil && fc.w.recursiveCall(fc.fn, ci.fn) {
+		// no function of the verified packages is recursive on the pinned tree; a recursive call needs a measure, which the
+		// contract language does not have for functions, so it is an undischargeable termination obligation
+		fc.oblige("rec-term", "false", "recursive call to "+ci.key+" without a termination measure", []string{"C02"}, "")
+	}
 	var args []Val
 	if common.IsInvoke() {
 		args = append(args, fc.val(common.Value))
@@ -1108,4 +1113,40 @@ func (w *World) writesOfFnPreexisting(fn *ssa.Function) map[string]bool {
 	// transitively: callees with modifies clauses applied to pre-existing objects would have to appear in this function's
 	// own modifies clause (frame obligations), so the declaration above is enough.
 	return out
+}
+
+
+// recursiveCall: can callee reach caller again through static calls inside the verified packages?
+func (w *World) recursiveCall(caller, callee *ssa.Function) bool {
+	if callee.Blocks == nil || w.fnByKey[shortFuncKey(callee)] != callee {
+		return false
+	}
+	seen := map[*ssa.Function]bool{}
+	var visit func(f *ssa.Function) bool
+	visit = func(f *ssa.Function) bool {
+		if f == caller {
+			return true
+		}
+		if seen[f] {
+			return false
+		}
+		seen[f] = true
+		for _, b := range f.Blocks {
+			for _, in := range b.Instrs {
+				ci, ok := in.(ssa.CallInstruction)
+				if !ok {
+					continue
+				}
+				g := ci.Common().StaticCallee()
+				if g == nil || g.Blocks == nil || w.fnByKey[shortFuncKey(g)] != g {
+					continue
+				}
+				if visit(g) {
+					return true
+				}
+			}
+		}
+		return false
+	}
+	return visit(callee)
 }
